@@ -170,8 +170,18 @@ def run_case(case):
                                                                      + np.arange(int(rng.integers(2, N + 2)))) * dts)
     windows["irregular times"] = np.sort(t[0] + rng.uniform(-0.5, 1.5, size=int(rng.integers(3, N + 3))) * N * dts)
     windows["grid re-bound on the used object (same length, a few samples later)"] = t + int(rng.integers(1, 8)) * dts
+    windows["grid re-bound on the used object (same start and length, another spacing)"] = t[0] + np.arange(N) * dts * float(rng.choice([0.5, 2.0, 1.3, 0.77]))
+    windows["grid re-bound by resample() on the used object"] = np.linspace(t[0], t[-1], int(rng.integers(max(3, N // 2), 2 * N)))
     for name, tq in windows.items():
-        if name.startswith("grid re-bound"):
+        if name.startswith("grid re-bound by resample"):
+            n.resample(len(tq))
+            v.check(np.allclose(n.times, tq, rtol=0, atol=1e-9 * dts), "resample() spans the same window with the requested number of samples")
+            tq = np.array(n.times, float)
+            got = np.array(n.values)
+            n.times = t
+            back = np.array(n.values)
+            v.close("binding the original grid again reproduces the original values", float(np.max(np.abs(back - vals))) / scale if back.shape == vals.shape else float("inf"), 1e-12)
+        elif name.startswith("grid re-bound"):
             # the object has been read; binding another grid to it must make it answer for that grid, and binding the old one again for the old one
             n.times = tq
             got = np.array(n.values)
